@@ -291,6 +291,36 @@ def chdir (t : T) (k : FsPath) : Except Errno T :=
 /-- `getcwd(2)`: fails once the directory has been removed -/
 def getcwd (t : T) : Except Errno FsPath := if isDir t t.cwd then .ok t.cwd else .error .ENOENT
 
+/-! ### file identity -/
+
+/-- FULL path resolution, every link on the way followed (the only place where the model follows
+    intermediate links): the key of the node a path denotes, as `stat` finds it. Fuel bounds the number
+    of steps (links followed + components walked). -/
+def realWalk (t : T) : Nat → FsPath → List Str → Except Errno FsPath
+  | 0, _, _ => .error .ELOOP
+  | _ + 1, cur, [] => .ok cur
+  | f + 1, cur, n :: rest =>
+    match get t cur with
+    | none => .error .ENOENT
+    | some nd =>
+      if nd.kind ≠ .dir then .error .ENOTDIR
+      else match get t (cur ++ [n]) with
+        | none => .error .ENOENT
+        | some m =>
+          match m.kind, m.target with
+          | .link _, some tg => realWalk t f [] (tg ++ rest)
+          | _, _ => realWalk t f (cur ++ [n]) rest
+
+def realKey (t : T) (k : FsPath) : Except Errno FsPath :=
+  realWalk t (linkFuel * (t.nodes.length + k.length + 2)) [] k
+
+/-- `x.dev() == y.dev() && x.ino() == y.ino()` for `fs::metadata` of two paths: both exist and denote
+    the same node -/
+def sameFile (t : T) (a b : FsPath) : Bool :=
+  match realKey t a, realKey t b with
+  | .ok x, .ok y => (get t x).isSome && x == y
+  | _, _ => false
+
 /-! ### rename -/
 
 /-- where the text of a link stored at `oldK` (target `tg`) points once the link sits at `newK` -/
